@@ -108,7 +108,7 @@ func (m *Machine) crossCheck(extra *Term, primary Result) {
 		switch {
 		case got == primary.String():
 			m.CrossAgreed++
-		case got == "unknown" || got == "timeout":
+		case got == "unknown" || got == "timeout" || strings.Contains(got, "interrupted by timeout") || strings.Contains(got, "resource limit"):
 			m.CrossUndecided++
 		default:
 			p.Inconclusive = append(p.Inconclusive, fmt.Sprintf("CROSS-SOLVER-DISAGREEMENT: z3 4.8.12 says %s, %s says %s", primary, argv[0], got))
